@@ -604,6 +604,72 @@ func c20BirkhoffHigh[E algebra.PrimeGroupElement[E, S], S algebra.PrimeFieldElem
 	env.Reach("birkhoff-high-done")
 }
 
+// c20BirkhoffInterp: birkhoff.Interpolate / InterpolateInExponent on concrete nodes and derivative
+// orders with SYMBOLIC values: the interpolant's j_i-th derivative at x_i is y_i, and interpolation
+// in the exponent returns exactly the lifted coefficients (including the single-node case, whose
+// 1×1 system has no minors).
+func c20BirkhoffInterp[E algebra.PrimeGroupElement[E, S], S algebra.PrimeFieldElement[S]](env Env[E, S], nodesU []uint64, orders []uint64) {
+	f := env.Field()
+	g := env.Group().Generator()
+	n := len(nodesU)
+	xs, ys := make([]S, n), make([]S, n)
+	lifted := make([]E, n)
+	for i := range xs {
+		xs[i] = f.FromUint64(nodesU[i])
+		ys[i] = env.Scalar(fmt.Sprintf("y%d", i))
+		lifted[i] = g.ScalarOp(ys[i])
+	}
+	// in the exponent, values symbolic: the interpolant meets every interpolation condition
+	pe, err := birkhoff.InterpolateInExponent(xs, orders, lifted)
+	if !env.Check("C20.c/birkhoff interpolation in the exponent succeeds on a poised node set", err == nil, fmt.Sprint(err)) {
+		return
+	}
+	var eqs []symalg.Pred
+	for i := range xs {
+		d := pe
+		for t := uint64(0); t < orders[i]; t++ {
+			d = d.Derivative()
+		}
+		eqs = append(eqs, env.EqG(d.Eval(xs[i]), lifted[i]))
+	}
+	env.Valid("C20.c/the Birkhoff interpolant in the exponent has derivative j_i equal to [y_i]G at x_i", symalg.And(eqs...))
+	env.Check("C20.c/the interpolant has at most as many coefficients as nodes", len(pe.Coefficients()) <= n, fmt.Sprint(len(pe.Coefficients())))
+	// scalar interpolation on concrete values (Cramer's rule with a symbolic column would pivot on
+	// symbolic entries): same conditions, and its lift equals the interpolation of the lifted values
+	cy := make([]S, n)
+	cl := make([]E, n)
+	for i := range cy {
+		cy[i] = f.FromUint64(uint64(3*i + 1))
+		cl[i] = g.ScalarOp(cy[i])
+	}
+	p, err := birkhoff.Interpolate(xs, orders, cy)
+	if env.Check("C20.c/scalar birkhoff interpolation succeeds on a poised node set", err == nil, fmt.Sprint(err)) {
+		var ceqs []symalg.Pred
+		for i := range xs {
+			d := p
+			for t := uint64(0); t < orders[i]; t++ {
+				d = d.Derivative()
+			}
+			ceqs = append(ceqs, env.EqF(d.Eval(xs[i]), cy[i]))
+		}
+		if pc, err := birkhoff.InterpolateInExponent(xs, orders, cl); env.Check("C20.c/birkhoff interpolation in the exponent succeeds where the scalar one does", err == nil, fmt.Sprint(err)) {
+			cs, ce := p.Coefficients(), pc.Coefficients()
+			for i := 0; i < n; i++ {
+				a, b := f.Zero(), env.Group().OpIdentity()
+				if i < len(cs) {
+					a = cs[i]
+				}
+				if i < len(ce) {
+					b = ce[i]
+				}
+				ceqs = append(ceqs, env.EqG(b, g.ScalarOp(a)))
+			}
+		}
+		env.Valid("C20.c/scalar Birkhoff interpolant meets its conditions and lifts to the interpolant in the exponent", symalg.And(ceqs...))
+	}
+	env.Reach("birkhoff-interp-done")
+}
+
 // C20Cases builds the case list.
 func C20Cases(tier string, seed int64) []Case {
 	var cases []Case
@@ -634,6 +700,20 @@ func C20Cases(tier string, seed int64) []Case {
 		c := both(fmt.Sprintf("C20/birkhoff-high/cols=%d/orders=%v", h.cols, h.orders), map[string]any{"cols": h.cols, "derivative orders": h.orders, "nodes": "symbolic"},
 			func(e Env[*symalg.G, *symalg.F]) { c20BirkhoffHigh(e, h.cols, h.orders) }, nil)
 		c.MustReach = []string{"birkhoff-high-done"}
+		cases = append(cases, c)
+	}
+	for _, bc := range []struct{ nodes, orders []uint64 }{
+		{[]uint64{5}, []uint64{0}},
+		{[]uint64{1, 2}, []uint64{0, 0}},
+		{[]uint64{1, 2}, []uint64{0, 1}},
+		{[]uint64{2, 7, 3}, []uint64{0, 1, 0}},
+		{[]uint64{7, 2, 77, 5}, []uint64{0, 0, 1, 2}},
+	} {
+		b := bc
+		c := both(fmt.Sprintf("C20/birkhoff-interpolate/nodes=%v/orders=%v", b.nodes, b.orders), map[string]any{"nodes": b.nodes, "derivative orders": b.orders, "values": "symbolic"},
+			func(e Env[*symalg.G, *symalg.F]) { c20BirkhoffInterp(e, b.nodes, b.orders) },
+			func(e Env[*k256.Point, *k256.Scalar]) { c20BirkhoffInterp(e, b.nodes, b.orders) })
+		c.MustReach = []string{"birkhoff-interp-done"}
 		cases = append(cases, c)
 	}
 	for _, ns := range nodeSets {
